@@ -48,11 +48,24 @@ type c01Layer struct {
 	inner io.ReadWriteCloser
 	rd    io.Reader
 	wr    io.Writer
+	// limit layer: the close function the caller supplied (golib calls it once on Close)
+	closeFn func() error
+	closed  bool
 }
 
 func (l *c01Layer) Read(p []byte) (int, error)  { return 0, io.EOF }
 func (l *c01Layer) Write(p []byte) (int, error) { return len(p), nil }
 func (l *c01Layer) Close() error {
+	if l.kind == "limit" {
+		if l.closed {
+			return nil
+		}
+		l.closed = true
+		if l.closeFn != nil {
+			return l.closeFn()
+		}
+		return nil
+	}
 	if l.inner != nil {
 		return l.inner.Close()
 	}
@@ -81,7 +94,7 @@ func c01StubWithCompressionFromPool(rwc io.ReadWriteCloser) (io.ReadWriteCloser,
 	return &c01Layer{kind: "comp", inner: rwc}, func() { c01S.recycled++ }
 }
 func c01StubWrapRWC(r io.Reader, w io.Writer, closeFn func() error) io.ReadWriteCloser {
-	return &c01Layer{kind: "limit", rd: r, wr: w}
+	return &c01Layer{kind: "limit", rd: r, wr: w, closeFn: closeFn}
 }
 func c01StubDial(addr string, opts ...libnet.DialOption) (net.Conn, error) {
 	c01S.dialAddr = addr
@@ -173,6 +186,11 @@ func VerifC01ClientStack() {
 	zzverif.Assert((c01S.recycled == 1) == cfg.Transport.UseCompression, "C01.client.compression-resources-recycled")
 	wantHeader := cfg.Transport.ProxyProtocolVersion != "" && m.SrcAddr != ""
 	zzverif.Assert((c01S.headerWrite == 1) == wantHeader, "C01.client.proxy-protocol-header-iff-declared")
+	// end of stream: when the pump closes the application end of the stack (backend finished)
+	// the work connection itself is closed, so the peer sees end-of-stream
+	zzverif.Assert(work.closed == 0, "C01.client.work-conn-open-while-bridged")
+	_ = c01S.joinB.Close()
+	zzverif.Assert(work.closed >= 1, "C01.client.closing-the-stack-closes-the-work-conn")
 	zzverif.Reach("C01.client.bridged")
 	if lim != nil && cfg.Transport.UseEncryption {
 		zzverif.Reach("C01.client.limit+enc")
